@@ -254,7 +254,7 @@ pub fn u64_json(x: u64) -> Value {
 // ------------------------------------------------------------------ the property interface
 
 pub trait Prop: Sync {
-    type Case: Clone + Send;
+    type Case: Clone + Send + Sync;
 
     fn id(&self) -> &'static str;
     /// numeric tag mixed into per-run seeds
@@ -275,6 +275,12 @@ pub trait Prop: Sync {
     fn from_json(&self, v: &Value) -> Self::Case;
     /// Evidence fields specific to the property (rule text, assumptions, stubs).
     fn describe(&self) -> Describe;
+    /// Execute every run on a fresh OS thread (isolates thread-local state of the
+    /// system under test between runs). Off only where the property's own runtime
+    /// (the shuttle server thread) must persist for speed.
+    fn isolate_runs(&self) -> bool {
+        true
+    }
     /// Which distinct-set is the "distinct non-trivial cases" measure.
     fn nontrivial_set(&self) -> &'static str {
         "nontrivial_cases"
@@ -354,17 +360,60 @@ pub struct BatchResult {
 
 struct Found<C> {
     run: u64,
+    chunk_lo: u64,
     case: C,
     v: Violation,
 }
 
 /// Execute with a backstop: a panic escaping the property's own harness is a
 /// harness error for that run, reported as class "harness-panic".
-fn exec_guarded<P: Prop>(p: &P, case: &P::Case, stats: &mut Stats) -> Verdict {
+fn exec_plain<P: Prop>(p: &P, case: &P::Case, stats: &mut Stats) -> Verdict {
     match catch(|| p.execute(case, stats)) {
         Ok(v) => v,
         Err(msg) => violation("harness-panic", "harness", format!("escaped panic: {msg}")),
     }
+}
+
+/// Execute a sequence of cases, in order, on ONE fresh OS thread (clean thread-local
+/// state in the system under test) and return the verdict of the last one. With a
+/// single case this is "one case = one repeatable execution"; with several it is a
+/// history of runs whose earlier members only matter through state they leave behind.
+fn exec_sequence<P: Prop>(p: &P, cases: &[P::Case], stats: &mut Stats) -> Verdict {
+    if !p.isolate_runs() {
+        let mut last = Ok(());
+        for (i, c) in cases.iter().enumerate() {
+            if i + 1 == cases.len() {
+                last = exec_plain(p, c, stats);
+            } else {
+                let mut scratch = Stats::new();
+                let _ = exec_plain(p, c, &mut scratch);
+            }
+        }
+        return last;
+    }
+    std::thread::scope(|s| {
+        std::thread::Builder::new()
+            .stack_size(4 << 20)
+            .spawn_scoped(s, || {
+                let mut last = Ok(());
+                for (i, c) in cases.iter().enumerate() {
+                    if i + 1 == cases.len() {
+                        last = exec_plain(p, c, stats);
+                    } else {
+                        let mut scratch = Stats::new();
+                        let _ = exec_plain(p, c, &mut scratch);
+                    }
+                }
+                last
+            })
+            .expect("spawn run thread")
+            .join()
+            .unwrap_or_else(|_| violation("harness-panic", "harness", "run thread died".to_string()))
+    })
+}
+
+fn exec_guarded<P: Prop>(p: &P, case: &P::Case, stats: &mut Stats) -> Verdict {
+    exec_sequence(p, std::slice::from_ref(case), stats)
 }
 
 pub fn run_batch<P: Prop>(p: &P, opt: &Options) -> BatchResult {
@@ -400,31 +449,45 @@ pub fn run_batch<P: Prop>(p: &P, opt: &Options) -> BatchResult {
                         break;
                     }
                     let hi = (lo + chunk).min(total);
-                    for run in lo..hi {
-                        let mut rng = Rng::new(mix(opt.seed, p.tag(), run));
-                        let case = p.generate(&mut rng, opt.tier, run);
-                        let mut st = Stats::new();
-                        let verdict = exec_guarded(p, &case, &mut st);
-                        let mut h = st.log;
-                        h.u64(if verdict.is_ok() { 0 } else { 1 });
-                        let hv = h.finish();
-                        let mut m = run ^ hv.rotate_left(23);
-                        local_digest = local_digest.wrapping_add(crate::rng::splitmix64(&mut m));
-                        if opt.dump_hashes.is_some() {
-                            local_hashes.push((run, hv));
-                        }
-                        if run < 3 || (run % (total / 4).max(1) == 0 && run > 0) {
-                            samples.lock().unwrap().insert(run, p.to_json(&case));
-                        }
-                        local.merge(st);
-                        executed.fetch_add(1, Ordering::Relaxed);
-                        if let Err(v) = verdict {
-                            found.lock().unwrap().push(Found { run, case, v });
-                            // keep going: several distinct findings may exist; but cap
-                            if found.lock().unwrap().len() >= 64 {
-                                stop.store(true, Ordering::Relaxed);
+                    // one chunk = consecutive runs executed in order; with isolate_runs() on a
+                    // fresh OS thread, so whatever thread-local state the system under test keeps
+                    // can only flow from an earlier run of the same chunk to a later one —
+                    // independent of the worker count, hence replayable as a sequence.
+                    let mut do_chunk = || {
+                        for run in lo..hi {
+                            let mut rng = Rng::new(mix(opt.seed, p.tag(), run));
+                            let case = p.generate(&mut rng, opt.tier, run);
+                            let mut st = Stats::new();
+                            let verdict = exec_plain(p, &case, &mut st);
+                            let mut h = st.log;
+                            h.u64(if verdict.is_ok() { 0 } else { 1 });
+                            let hv = h.finish();
+                            let mut m = run ^ hv.rotate_left(23);
+                            local_digest = local_digest.wrapping_add(crate::rng::splitmix64(&mut m));
+                            if opt.dump_hashes.is_some() {
+                                local_hashes.push((run, hv));
+                            }
+                            if run < 3 || (run % (total / 4).max(1) == 0 && run > 0) {
+                                samples.lock().unwrap().insert(run, p.to_json(&case));
+                            }
+                            local.merge(st);
+                            executed.fetch_add(1, Ordering::Relaxed);
+                            if let Err(v) = verdict {
+                                let mut f = found.lock().unwrap();
+                                f.push(Found { run, chunk_lo: lo, case, v });
+                                // keep going: several distinct findings may exist; but cap
+                                if f.len() >= 64 {
+                                    stop.store(true, Ordering::Relaxed);
+                                }
                             }
                         }
+                    };
+                    if p.isolate_runs() {
+                        std::thread::scope(|cs| {
+                            std::thread::Builder::new().stack_size(4 << 20).spawn_scoped(cs, &mut do_chunk).expect("spawn chunk thread").join().expect("chunk thread died");
+                        });
+                    } else {
+                        do_chunk();
                     }
                 }
                 merged.lock().unwrap().merge(local);
@@ -471,8 +534,50 @@ pub fn run_batch<P: Prop>(p: &P, opt: &Options) -> BatchResult {
         if n_viol > 4 {
             continue; // report at most four distinct violations in full
         }
-        let (small, v) = shrink_case(p, &f.case, &f.v);
-        let path = write_replay(p, opt, f.run, &small, &v);
+        // Does the case fail on its own, on a fresh thread? Then it is shrunk as a single case.
+        // Otherwise it needed state left behind by earlier runs of its chunk: replay the chunk
+        // prefix as a sequence and minimise that.
+        let mut st0 = Stats::new();
+        let alone = exec_guarded(p, &f.case, &mut st0);
+        let (seq, v): (Vec<P::Case>, Violation) = match alone {
+            Err(ref v2) if v2.class == f.v.class => {
+                let (small, v) = shrink_case(p, &f.case, &f.v);
+                (vec![small], v)
+            }
+            _ => {
+                let mut cases: Vec<P::Case> = (f.chunk_lo..=f.run).map(|r| p.generate(&mut Rng::new(mix(opt.seed, p.tag(), r)), opt.tier, r)).collect();
+                let mut stq = Stats::new();
+                match exec_sequence(p, &cases, &mut stq) {
+                    Err(ref v2) if v2.class == f.v.class => {
+                        // greedy: drop earlier members while the last one still fails the same way
+                        let mut i = 0;
+                        while i + 1 < cases.len() {
+                            let mut cand = cases.clone();
+                            cand.remove(i);
+                            let mut stc = Stats::new();
+                            match exec_sequence(p, &cand, &mut stc) {
+                                Err(ref v3) if v3.class == f.v.class => cases = cand,
+                                _ => i += 1,
+                            }
+                        }
+                        let mut stf = Stats::new();
+                        let vfinal = exec_sequence(p, &cases, &mut stf).err().unwrap_or_else(|| f.v.clone());
+                        (cases, vfinal)
+                    }
+                    _ => {
+                        say!(
+                            "HARNESS-ERROR property={} run {} failed inside the batch ({}: {}) but neither alone nor as the sequence of its chunk on a fresh thread: state outside the simulator's control (a process-wide static?)",
+                            p.id(), f.run, f.v.class, f.v.detail
+                        );
+                        if exit_code == 0 {
+                            exit_code = 2;
+                        }
+                        continue;
+                    }
+                }
+            }
+        };
+        let path = write_replay(p, opt, f.run, &seq, &v);
         match confirm_in_fresh_process(&path, &v.class) {
             Ok(()) => {
                 say!("  class={} key={} run={} detail={}", v.class, v.key, f.run, v.detail);
@@ -557,19 +662,24 @@ pub fn shrink_case<P: Prop>(p: &P, case: &P::Case, v: &Violation) -> (P::Case, V
 
 // ------------------------------------------------------------------ replay files
 
-fn write_replay<P: Prop>(p: &P, opt: &Options, run: u64, case: &P::Case, v: &Violation) -> String {
+fn write_replay<P: Prop>(p: &P, opt: &Options, run: u64, seq: &[P::Case], v: &Violation) -> String {
     let dir = format!("{}/replays", opt.verif_dir);
     let _ = std::fs::create_dir_all(&dir);
     let path = format!("{}/{}-{}-{}.json", dir, p.id(), opt.seed, run);
-    let doc = json!({
+    let last = seq.last().expect("non-empty sequence");
+    let mut doc = json!({
         "property": p.id(),
         "verif_seed": u64_json(opt.seed),
         "run": run,
         "tier": opt.tier.name(),
         "violation": { "class": v.class, "key": v.key, "detail": v.detail },
         "note": "minimised case; every scheduling decision, fault and datum is explicit. Replay: bin/check --replay <this file>",
-        "case": p.to_json(case),
+        "case": p.to_json(last),
     });
+    if seq.len() > 1 {
+        doc["executed_before_on_the_same_thread"] = Value::Array(seq[..seq.len() - 1].iter().map(|c| p.to_json(c)).collect());
+        doc["note"] = json!("the case fails only after the cases listed under executed_before_on_the_same_thread have run on the same OS thread (state kept by the system under test between calls); the replay executes them in order on one fresh thread");
+    }
     std::fs::write(&path, serde_json::to_string_pretty(&doc).unwrap()).expect("write replay");
     path
 }
@@ -594,10 +704,15 @@ fn confirm_in_fresh_process(path: &str, class: &str) -> Result<(), String> {
 /// `simcheck replay <file>`: exit 1 and print REPRODUCED if the recorded case
 /// violates the property (same class), 0 if it passes, 2 on harness trouble.
 pub fn replay_file<P: Prop>(p: &P, doc: &Value) -> i32 {
-    let case = p.from_json(&doc["case"]);
+    let mut seq: Vec<P::Case> = doc
+        .get("executed_before_on_the_same_thread")
+        .and_then(|a| a.as_array())
+        .map(|a| a.iter().map(|c| p.from_json(c)).collect())
+        .unwrap_or_default();
+    seq.push(p.from_json(&doc["case"]));
     let want = doc["violation"]["class"].as_str().unwrap_or("").to_string();
     let mut st = Stats::new();
-    match exec_guarded(p, &case, &mut st) {
+    match exec_sequence(p, &seq, &mut st) {
         Ok(()) => {
             say!("NOT-REPRODUCED property={} (case passes on this tree)", p.id());
             0
